@@ -553,10 +553,11 @@ macro_rules
 
 theorem sim_simple (b : Builtin) (fuel : Nat) (s : St) (g : Good K db₁ s)
     (hb : b ≠ .callType ∧ b ≠ .if_ ∧ b ≠ .while_ ∧ b ≠ .type_ ∧ b ≠ .preamble ∧
-      b ≠ .addPeriod ∧ b ≠ .chrToInt ∧ b ≠ .intToStr ∧ b ≠ .missing ∧ b ≠ .top) :
+      b ≠ .addPeriod ∧ b ≠ .chrToInt ∧ b ≠ .intToStr ∧ b ≠ .missing ∧ b ≠ .top ∧ b ≠ .formatName ∧ b ≠ .warning) :
     SimR K db₁ db₂ pfx (runBuiltin (fuel + 1) b s) (runBuiltin (fuel + 1) b (setDb db₂ pfx s)) := by
   cases b
-  case callType | if_ | while_ | type_ | preamble | addPeriod | chrToInt | intToStr | missing | top => simp at hb
+  case callType | if_ | while_ | type_ | preamble | addPeriod | chrToInt | intToStr | missing | top | formatName | warning =>
+    simp at hb
   all_goals simp only [runBuiltin]
   all_goals try (auto_pop db₂ pfx with g1; try (auto_pop db₂ pfx with g2; try (auto_pop db₂ pfx with g3)))
   all_goals try simp only [setDb_stack, setDb_vars, setDb_cur, setDb_buffer, setDb_lines, setDb_printed]
@@ -567,8 +568,28 @@ theorem sim_simple (b : Builtin) (fuel : Nat) (s : St) (g : Good K db₁ s)
     | exact ⟨⟨g2.1, g2.2, g2.3⟩, rfl⟩
     | exact ⟨⟨g1.1, g1.2, g1.3⟩, rfl⟩
     | exact ⟨⟨g.1, g.2, g.3⟩, rfl⟩
-    | exact ⟨⟨g3.1, g3.2, g3.3⟩, by simp only [setDb, warn, push, List.append_assoc]⟩
-    | exact ⟨⟨g1.1, g1.2, g1.3⟩, by simp only [setDb, warn, push, List.append_assoc]⟩
+
+/-- the two built-ins that report (`warning$`, `format.name$`): the reports grow at the end -/
+theorem sim_warncase (b : Builtin) (fuel : Nat) (s : St) (g : Good K db₁ s)
+    (hb : b = .formatName ∨ b = .warning) :
+    SimR K db₁ db₂ pfx (runBuiltin (fuel + 1) b s) (runBuiltin (fuel + 1) b (setDb db₂ pfx s)) := by
+  rcases hb with rfl | rfl
+  · simp only [runBuiltin]
+    pop_step popStr_ok s g db₂ pfx with fmt s1 g1
+    pop_step popInt_ok s1 g1 db₂ pfx with n s2 g2
+    pop_step popStr_ok s2 g2 db₂ pfx with names s3 g3
+    split
+    · exact ⟨⟨g3.1, g3.2, g3.3⟩, by simp only [setDb, warn, push, List.append_assoc]⟩
+    · split
+      · exact rfl
+      · split
+        · exact rfl
+        · split
+          · exact ⟨⟨g3.1, g3.2, g3.3⟩, by simp only [setDb, push, List.append_assoc]⟩
+          · exact ⟨⟨g3.1, g3.2, g3.3⟩, rfl⟩
+  · simp only [runBuiltin]
+    pop_step popStr_ok s g db₂ pfx with msg s1 g1
+    exact ⟨⟨g1.1, g1.2, g1.3⟩, by simp only [setDb, warn, List.append_assoc]⟩
 
 
 theorem sim_valcase (b : Builtin) (fuel : Nat) (s : St) (g : Good K db₁ s)
@@ -664,13 +685,13 @@ theorem frame_all (hA : Agree K db₁ db₂) : ∀ fuel : Nat,
         | some k => exact ⟨⟨g.1, g.2, g.3⟩, rfl⟩
       | field nm =>
         simp only [execObj]
-        rcases curEntry_cases hA s g with ⟨e, h1, h2⟩ | ⟨k, e₁, e₂, h1, h2, h3, h4, h5⟩
+        rcases curEntry_cases (pfx := pfx) hA s g with ⟨e, h1, h2⟩ | ⟨k, e₁, e₂, h1, h2, h3, h4, h5⟩
         · simp only [h1, h2]; exact rfl
         · simp only [h1, h2, h4 nm]
           exact ⟨⟨g.1, g.2, g.3⟩, rfl⟩
       | crossref =>
         simp only [execObj]
-        rcases curEntry_cases hA s g with ⟨e, h1, h2⟩ | ⟨k, e₁, e₂, h1, h2, h3, h4, h5⟩
+        rcases curEntry_cases (pfx := pfx) hA s g with ⟨e, h1, h2⟩ | ⟨k, e₁, e₂, h1, h2, h3, h4, h5⟩
         · simp only [h1, h2]; exact rfl
         · simp only [h1, h2, h5]
           exact ⟨⟨g.1, g.2, g.3⟩, rfl⟩
@@ -716,14 +737,16 @@ theorem frame_all (hA : Agree K db₁ db₂) : ∀ fuel : Nat,
     · -- runBuiltin
       intro b s g
       by_cases hb : b ≠ .callType ∧ b ≠ .if_ ∧ b ≠ .while_ ∧ b ≠ .type_ ∧ b ≠ .preamble ∧
-          b ≠ .addPeriod ∧ b ≠ .chrToInt ∧ b ≠ .intToStr ∧ b ≠ .missing ∧ b ≠ .top
+          b ≠ .addPeriod ∧ b ≠ .chrToInt ∧ b ≠ .intToStr ∧ b ≠ .missing ∧ b ≠ .top ∧ b ≠ .formatName ∧ b ≠ .warning
       · exact sim_simple b n s g hb
+      by_cases hb3 : b = .formatName ∨ b = .warning
+      · exact sim_warncase b n s g hb3
       by_cases hb2 : b = .addPeriod ∨ b = .chrToInt ∨ b = .intToStr ∨ b = .missing ∨ b = .top
       · exact sim_valcase b n s g hb2
       cases b
       case callType =>
         simp only [runBuiltin]
-        rcases curEntry_cases hA s g with ⟨e, h1, h2⟩ | ⟨k, e₁, e₂, h1, h2, h3, h4, h5⟩
+        rcases curEntry_cases (pfx := pfx) hA s g with ⟨e, h1, h2⟩ | ⟨k, e₁, e₂, h1, h2, h3, h4, h5⟩
         · simp only [h1, h2]; exact rfl
         · simp only [h1, h2, setDb_vars, ← h3]
           cases s.vars.getItem e₁.type with
@@ -757,14 +780,14 @@ theorem frame_all (hA : Agree K db₁ db₂) : ∀ fuel : Nat,
         exact ihWhile p f s2 g2
       case type_ =>
         simp only [runBuiltin]
-        rcases curEntry_cases hA s g with ⟨e, h1, h2⟩ | ⟨k, e₁, e₂, h1, h2, h3, h4, h5⟩
+        rcases curEntry_cases (pfx := pfx) hA s g with ⟨e, h1, h2⟩ | ⟨k, e₁, e₂, h1, h2, h3, h4, h5⟩
         · simp only [h1, h2]; exact rfl
         · simp only [h1, h2, h3]
           exact ⟨⟨g.1, g.2, g.3⟩, rfl⟩
       case preamble =>
         simp only [runBuiltin, setDb_db, g.hdb, setDb_preamble]
         exact ⟨⟨g.1, g.2, g.3⟩, rfl⟩
-      all_goals simp at hb hb2
+      all_goals simp at hb hb2 hb3
 
 
 /-! ### lifting the frame property to `iterate`, commands and programs -/
